@@ -2,7 +2,7 @@
 META = {
     "level": "exploration",
     "technique": "runtime monitoring of the real web API on an in-process grid: byte-level before/after snapshots of every mutable share file on every server around each modifying request made with read-only authority, plus a write-secret scan of every response obtained with read-only authority",
-    "text": "Builds random directory trees with mixed authority (SDMF/MDMF directories and files, CHK/LIT files, immutable directories; children linked read-write and read-only, the same object reachable both ways) through a real client, mounts the real web API and issues every modifying form of web/directory.py and web/filenode.py (PUT file/?t=uri/?t=mkdir, POST t=mkdir/mkdir-with-children/mkdir-immutable/upload/uri/unlink/delete/rename/relink/set_children, replace=..., offset=, DELETE, intermediate-directory creation, relink INTO a read-only directory) (a) with a read-only dircap, read-only filecap, verify-cap or immutable dircap as the URL's capability and (b) through paths of a writeable root that cross a read-only directory entry. Oracle: every mutable share file that existed before the request and is not write-derivable from the capabilities the requester presented must be byte-identical afterwards (share data and header always; lease area too unless add-lease was asked for) and the response must be 4xx/5xx. Every response obtained with read-only authority (t=json, t=info, HTML listing, t=uri, t=readonly-uri, rename-form, manifests, deep-stats/size, check results, error pages) is searched for the base32 write key of every mutable object the harness created (excluding secrets the request itself supplied). A request answered with an error must moreover leave EVERY pre-existing mutable object unchanged, including a writeable destination named in to_dir= (no half-performed moves). Before the read-only requests the harness walks the tree with the write cap through the same client and keeps the resulting child nodes alive (as a running manifest/deep-check would), so a node cache that confuses authorities is exposed. Each modifying form is also issued with a write cap on a twin directory/file and must change the grid there, so the workload is not vacuous; a form is judged for its status only after it has been shown effective.",
+    "text": "Builds random directory trees with mixed authority (SDMF/MDMF directories and files, CHK/LIT files, immutable directories; children linked read-write and read-only, the same object reachable both ways) through a real client, mounts the real web API and issues every modifying form of web/directory.py and web/filenode.py (PUT file/?t=uri/?t=mkdir, POST t=mkdir/mkdir-with-children/mkdir-immutable/upload/uri/unlink/delete/rename/relink/set_children, replace=..., offset=, DELETE, intermediate-directory creation, relink INTO a read-only directory) (a) with a read-only dircap, read-only filecap, verify-cap or immutable dircap as the URL's capability and (b) through paths of a writeable root that cross a read-only directory entry. Oracle: every mutable share file that existed before the request and is not write-derivable from the capabilities the requester presented must be byte-identical afterwards (share data and header always; lease area too unless add-lease was asked for) and the response must be 4xx/5xx; a refused request must not leave new immutable share files on any server either (uploads use fresh bodies > 55 bytes; control: the same upload through a write cap stores shares). Every response obtained with read-only authority (t=json, t=info, HTML listing, t=uri, t=readonly-uri, rename-form, manifests, deep-stats/size, check results, error pages) is searched for the base32 write key of every mutable object the harness created (excluding secrets the request itself supplied). A request answered with an error must moreover leave EVERY pre-existing mutable object unchanged, including a writeable destination named in to_dir= (no half-performed moves). Before the read-only requests the harness walks the tree with the write cap through the same client and keeps the resulting child nodes alive (as a running manifest/deep-check would), so a node cache that confuses authorities is exposed. Each modifying form is also issued with a write cap on a twin directory/file and must change the grid there, so the workload is not vacuous; a form is judged for its status only after it has been shown effective.",
     "note": "Trusts vf.web, the in-process grid, the harness's own model of which capabilities are write-derivable from which, and the 10-line mutable-container parser (header 100 bytes, 4 lease slots, data at 468). New unlinked objects left behind by a refused request are reported as observations, not violations (creating unlinked objects needs no authority).",
 }
 LEVEL = "exploration"
@@ -133,10 +133,12 @@ def run(ck):
             with ck.watchdog(240, "case %d" % i):
                 _one_case(ck, i)
         i += 1
-    ck.require_monitor("protected-slots-unchanged", "refused-status", "refused-request-changes-nothing", "write-secret-scan")
+    ck.require_monitor("protected-slots-unchanged", "refused-status", "refused-request-changes-nothing", "refused-request-stores-nothing",
+                       "write-secret-scan")
     ck.require_reach("form-effective-with-writecap", "refused-by-readonly-dircap", "refused-crossing-readonly-entry",
                      "refused-by-readonly-filecap", "refused-by-verifycap", "refused-by-immutable-dircap",
                      "refused-relink-into-readonly", "refused-by-readcap-after-writecap-walk",
+                     "immutable-upload-through-writecap-stores-shares", "refused-immutable-upload-stored-nothing",
                      "readcap-json-while-writecap-walk-holds-the-node", "writecap-visible-through-writecap", "manifest-through-readcap",
                      "same-object-rw-and-ro", "mdmf-directory", "sdmf-directory")
     ck.exhaustive = False
@@ -166,6 +168,7 @@ class Case(object):
         self.ck, self.g, self.c, self.stub, self.web, self.rng, self.ci = ck, g, c, stub, web, rng, ci
         self.tree = Tree()
         self.effective = set()
+        self.stores_shares = set()
         self.nhandle = 0
         u = rng.random() < .5
         sfx = "é中" if u else ""
@@ -348,7 +351,8 @@ class Case(object):
     def dir_forms(self, base, sandbox_cap):
         q, N, rng = self.web.q, self.N, self.rng
         new, f, m, sub = q(N["new"]), q(N["file"]), q(N["mfile"]), q(N["sub"])
-        data = b"payload-%d-" % rng.randrange(10 ** 6) + bytes(rng.getrandbits(8) for _ in range(rng.choice([3, 70, 300])))
+        # fresh per request and > 55 bytes: an immutable upload of it is a CHK file whose shares are not yet on the grid
+        data = b"payload-%d-%d-" % (self.ci, rng.randrange(10 ** 9)) + bytes(rng.getrandbits(8) for _ in range(rng.choice([45, 70, 150, 300])))
         own, lit = self.own.cap, self.lit.cap
         sep = "&" if "?" in base else "?"
         F = {}
@@ -364,6 +368,10 @@ class Case(object):
         add("POST-upload-new-sdmf", "POST", base + "?t=upload&format=sdmf", form={"file": ("up.bin", data), "name": N["new"]})
         add("POST-upload-new-mdmf", "POST", base + "?t=upload&format=mdmf", form={"file": ("up.bin", data), "name": N["new"]})
         add("POST-upload-replace-file", "POST", base + "?t=upload", form={"file": ("up.bin", data), "name": N["file"], "replace": "true"})
+        add("POST-upload-replace-file-queryarg", "POST", base + "?t=upload&replace=true&name=" + f, form={"file": ("up.bin", data)})
+        add("POST-upload-new-replace-false", "POST", base + "?t=upload&replace=false", form={"file": ("up.bin", data), "name": N["new"]})
+        add("PUT-new-file-replace-false", "PUT", base + "/" + new + "?replace=false", body=data)
+        add("PUT-new-file-chk-explicit", "PUT", base + "/" + new + "?format=chk", body=data)
         add("POST-upload-onto-mutable-child", "POST", base + "?t=upload", form={"file": ("up.bin", data), "name": N["mfile"]})
         add("POST-uri-new", "POST", base + "?t=uri&name=%s&uri=%s" % (new, q(lit)))
         add("POST-uri-new-writecap", "POST", base + "?t=uri&name=%s&uri=%s" % (new, q(own)), [own])
@@ -501,8 +509,30 @@ class Case(object):
                       st, len(changed_other), sorted(set(k[1] for k in changed_other))[:3]))
         elif changed_other and isinstance(st, int) and st >= 400:
             ck.observe("maintenance-request-with-error-status-changed-a-writeable-object")
+        # ... and nothing else on the grid either: every share file on every server, immutable ones and new storage
+        # indexes included.  A refused upload that has already stored its shares lets a read-cap holder fill the grid.
+        imm_changed = [k for k, v in before.items() if v[1] is None and (k not in after or after[k][0] != v[0])]
+        new_imm = sorted(set(k[1] for k in after if after[k][1] is None and k not in before))
+        if judge_status:
+            ck.mon("refused-request-stores-nothing")
+            refused = not (isinstance(st, int) and st < 400)
+            if refused and new_imm:
+                V("refused-request-stored-new-shares", "answered %s, yet %d new immutable share file(s) for storage index(es) %s "
+                  "were written to the storage servers" % (st, len([k for k in after if k not in before and after[k][1] is None]), new_imm[:3]))
+            if refused and imm_changed:
+                V("refused-request-changed-grid", "answered %s, yet %d existing immutable share file(s) were changed or removed" % (
+                    st, len(imm_changed)))
+            if refused and form in self.stores_shares and not new_imm:
+                ck.hit("refused-immutable-upload-stored-nothing")
         if new_slots:
-            ck.observe("refused-request-left-new-unlinked-mutable-object")
+            # web/filenode.py replace_me_with_a_child / replace_me_with_a_formpost used to create the new MUTABLE file
+            # (format=sdmf|mdmf) before trying to link it, so a refused request left an unlinked slot behind
+            # (repaired in /repo, see known_findings.json).
+            if judge_status and not (isinstance(st, int) and st < 400):
+                V("refused-request-created-new-mutable-object", "answered %s, yet %d new mutable object(s) %s were created on "
+                  "the storage servers" % (st, len(new_slots), sorted(new_slots)[:3]))
+            else:
+                ck.observe("request-left-new-mutable-object")
         self.scan(form, scen, cls, method, url, kw, st, hd, body, derivable)
         return st, hd, body, before
 
@@ -553,6 +583,9 @@ class Case(object):
             if isinstance(st, int) and st < 400 and changed:
                 self.effective.add(form)
                 self.ck.hit("form-effective-with-writecap")
+                if any(v[1] is None and k not in before for k, v in after.items()):
+                    self.stores_shares.add(form)           # control: through a writeable path this upload stores CHK shares
+                    self.ck.hit("immutable-upload-through-writecap-stores-shares")
             else:
                 self.ck.observe("form-not-effective-with-writecap:" + form)
             self.discard([S])
@@ -737,6 +770,8 @@ class Case(object):
 # Caught since the every-mutable-slot rule for refused requests and the write-cap-walk ordering were added:
 #   c41-dirnode-move-unchecked, seeded/C41-1   relink from a read-only source into a writeable to_dir is answered 500 but the
 #                                              destination gained the link                   -> refused-request-changed-grid
+#   seeded/C41-4                               add_file uploads before set_node refuses: PUT/POST t=upload of a fresh CHK body through a
+#                                              read-only directory is answered 500 but its shares are stored -> refused-request-stored-new-shares
 #   seeded/C41-2                               node cache keyed by the read cap: after a write-cap walk whose child nodes are
 #                                              still alive, read-cap requests are served by writeable nodes
 #                                              -> modifying-request-not-refused, readonly-authority-modified-grid, write-cap-in-readonly-response
